@@ -43,7 +43,14 @@ def observe(registry, marked, inc, exc, files, *, check_fns=True, check_kw=True,
     got_fns, got_kw = [], []
     for e in registry or []:
         if hasattr(e, "args") and hasattr(e, "func"):
-            got_kw.append({"label": e.args[0], "words": [list(w) for w in e.args[1]]})
+            words = list(e.args[1])
+            applied = []
+            for w in words[:2] + words[-1:]:        # the searcher applied to texts that hold one of its words between blanks
+                try:
+                    applied += [[h.type, list(h.value)] for h in e(b"; " + w + b" ;")]
+                except Exception as ex:  # noqa: BLE001
+                    applied.append(["raised:" + type(ex).__name__, []])
+            got_kw.append({"label": e.args[0], "words": [list(w) for w in words], "applied": applied})
         else:
             got_fns.append([e.__module__.rsplit(".", 1)[-1], e.__name__])
     return {
@@ -203,7 +210,7 @@ def run(prop: str, tier: str) -> int:
             if c not in ("ACCEPT", "REJECT"):
                 tr = recs[t - 1]
                 slim = dict(tr, files=[{"name": x["name"], "dir": x.get("dir"), "bytes": len(x["raw"])} for x in tr["files"]][:20],
-                            gotKw=[{"label": k["label"], "n": len(k["words"])} for k in tr["gotKw"]][:20])
+                            gotKw=[{"label": k["label"], "n": len(k["words"]), "applied": [a[0] for a in k.get("applied", [])][:4]} for k in tr["gotKw"]][:20])
                 res.violation(f"RegistryTrace rejects clause {c} for {tr['origin']} include={tr['inc'] if not tr['incNone'] else None} "
                               f"exclude={tr['exc'] if not tr['excNone'] else None} failed={tr['failed']}",
                               {"clause": c, "origin": tr["origin"]}, {"kind": "registry-trace", "trace": slim})
